@@ -225,6 +225,11 @@ fn per_queue_full(q: u8) -> Vec<Op> {
             pos: Pos::Retry,
             sizes: vec![],
         },
+        Op::Append {
+            q,
+            pos: Pos::Past,
+            sizes: vec![],
+        },
         Op::app(q, Pos::Retry, Sz::S3),
         Op::app(q, Pos::Past, Sz::S3),
         Op::app(q, Pos::Gap, Sz::S3),
